@@ -241,6 +241,12 @@ class VLoop(asyncio.SelectorEventLoop):
     # ---- endpoints ---------------------------------------------------------
     async def create_datagram_endpoint(self, protocol_factory, **kw):
         await asyncio.sleep(0)
+        if getattr(self, "fail_endpoints", 0) > 0:
+            # the operating system refuses the socket (descriptor exhaustion): what a real loop raises
+            self.fail_endpoints -= 1
+            if getattr(self, "on_endpoint_fail", None):
+                self.on_endpoint_fail(kw)
+            raise OSError(24, "Too many open files")
         protocol = protocol_factory()
         tr = FakeTransport(self, protocol, kw)
         self.transports.append(tr)
